@@ -34,7 +34,7 @@ func VH_C10_Handshake() {
 	// handshake is specified to skip (ACK, NACK, FIN of an earlier connection)
 	benign := true
 	for i := 0; i < stale; i++ {
-		b := vBytes("stale", vIntRange("stalelen", 1, vParam("maxstalelen", 3)))
+		b := vBytes("stale", vIntRange("stalelen", 0, vParam("maxstalelen", 3))) // incl. a zero-length relay message
 		benign = benign && ((len(b) == 2 && (b[0] == ACK || b[0] == NACK)) || (len(b) == 1 && b[0] == FIN))
 		if vBool("stale_to_server") {
 			p.c2s.push(b)
